@@ -55,6 +55,7 @@ var commands = map[string]command{
 	"chain-replay":        chainReplay,
 	"client-replay":       clientReplay,
 	"transform-replay":    transformReplay,
+	"longform-replay":     longformReplay,
 }
 
 func main() {
